@@ -416,7 +416,9 @@ func (e *Engine) discharge(o *Obligation, workdir string, budgetS int, idx int) 
 			ffile := filepath.Join(workdir, fmt.Sprintf("q%05d.f.smt2", idx))
 			if err := os.WriteFile(ffile, []byte(qf), 0o644); err == nil {
 				rf := runSolver(context.Background(), solvers[0], quick, ffile)
-				os.Remove(ffile)
+				if os.Getenv("GOVC_KEEPALL") == "" {
+					os.Remove(ffile)
+				}
 				if rf.status == "unsat" {
 					o.TimeS = time.Since(start).Seconds()
 					o.Solver = rf.solver
@@ -471,7 +473,7 @@ func (e *Engine) discharge(o *Obligation, workdir string, budgetS int, idx int) 
 			o.Solver = "undecided-cover"
 		}
 	}
-	if o.Status == "proved" {
+	if o.Status == "proved" && os.Getenv("GOVC_KEEPALL") == "" {
 		os.Remove(file)
 	}
 }
